@@ -159,6 +159,7 @@ impl IdlSqliteWriteTransaction {
         handle: KeyHandleId,
         data: &KeyHandle,
     ) -> Result<(), OperationError> {
+        #[cfg(feature = "verif-hooks")] crate::verif_hooks::fault::storage_point("set_key_handle")?;
         let s_handle = serde_json::to_vec(&handle).map_err(serde_json_error)?;
         let s_data = serde_json::to_vec(&data).map_err(serde_json_error)?;
 
@@ -176,6 +177,7 @@ impl IdlSqliteWriteTransaction {
         &mut self,
         keyhandles: &BTreeMap<KeyHandleId, KeyHandle>,
     ) -> Result<(), OperationError> {
+        #[cfg(feature = "verif-hooks")] crate::verif_hooks::fault::storage_point("set_key_handles")?;
         self.get_conn()?
             .execute(
                 &format!("DELETE FROM {}.keyhandles", self.get_db_name()),
